@@ -33,7 +33,7 @@ LEVEL_NOTE = "Trusted: peer model; reference decoder for the decodable/undecodab
 TECHNIQUE = "deterministic simulation: adversarial peer contents, bulk + single reads of every id; per-register sweeps"
 
 FILLS = [("zero", 0), ("ff", 0)] + [("bound", s) for s in range(1, 7)] + [("hash", s) for s in range(1, 7)] + \
-        [("step", s) for s in range(1, 5)]
+        [("step", s) for s in range(1, 5)] + [("sp32a", s) for s in range(1, 5)] + [("sp32b", s) for s in range(1, 5)] + [("constw", s) for s in range(8)]
 GROUPS = [("ET", "eco_mode_1", "v1", 47515, 4, "3000300000640000"), ("ET", "eco_mode_1", "v2", 47547, 6, "0000173bff7fffec00640000"),
           ("ET", "peak_shaving_mode", "v2", 47589, 6, "0000173bfc7f006400640000"), ("ET", "time", "ts", 45200, 3, "170511100b0c"),
           ("DT", "time", "ts", 40313, 3, "170511100b0c"), ("ES", "eco_mode_1", "v1aa", 1793, 4, "3000300000640000"),
@@ -151,9 +151,13 @@ def run_bulk(case):
         except Exception as e:  # noqa
             add(f"C11:{type(e).__name__}:read_device_info:{fam}", f"{what}: read_device_info raised {e!r}")
             return
-        # (a) bulk
+        # (a) bulk - twice: the second poll of the same contents must be as complete as the first
         try:
             data = await inv.read_runtime_data()
+            data2 = await inv.read_runtime_data()
+            if set(data2) != set(data) or set(data2) != {s.id_ for s in inv.sensors()}:
+                add(f"C11:keys:runtime-second-poll:{fam}", f"{what}: second poll has other keys than the first: "
+                    f"{sorted(set(data2) ^ set(data))[:6]}")
             stats["bulk_calls"] += 1
             ids = {s.id_ for s in inv.sensors()}
             if set(data) != ids:
@@ -167,6 +171,10 @@ def run_bulk(case):
         if fam in ("ET", "ES"):
             try:
                 sdata = await inv.read_settings_data()
+                sdata2 = await inv.read_settings_data()
+                if set(sdata2) != set(sdata):
+                    add(f"C11:keys:settings-second-poll:{fam}", f"{what}: second settings read has other keys: "
+                        f"{sorted(set(sdata2) ^ set(sdata))[:6]}")
                 stats["bulk_calls"] += 1
                 ids = {s.id_ for s in inv.settings()}
                 if set(sdata) != ids:
